@@ -69,6 +69,8 @@ type Gen struct {
 	entry    *State
 	usedExt  map[string]bool
 	curBlock *ssa.BasicBlock
+	curSt    *State
+	curInstr ssa.Instruction
 	exits    []exitPoint
 	uses     []*Axiom
 	noDecl   map[string]bool
@@ -202,7 +204,7 @@ func (g *Gen) wf(v string, t types.Type, allocT string) string {
 		case types.Int32:
 			return and("(<= (- 2147483648) "+v+")", "(<= "+v+" 2147483647)")
 		case types.String:
-			return and("(<= 0 "+sOff(v)+")", "(<= 0 "+sLen(v)+")")
+			return and("(<= 0 "+sOff(v)+")", "(<= "+sOff(v)+" "+sHi(v)+")")
 		}
 	case *types.Slice:
 		return and("(<= 0 "+slRef(v)+")", "(<= "+slRef(v)+" "+allocT+")", "(<= 0 "+slOff(v)+")", "(<= 0 "+slLen(v)+")", "(<= "+slLen(v)+" "+slCap(v)+")",
@@ -497,41 +499,82 @@ func (g *Gen) edgeCond(p, s *ssa.BasicBlock) string {
 }
 
 // loopMods: heap components and locals possibly modified inside the loop.
-func (g *Gen) loopMods(li *loopInfo) (comps map[string]bool, all bool, locals map[*ssa.Alloc]bool) {
+// dirty[c] is set when an object of c that existed before the loop may be written;
+// components that are only written in objects allocated inside the loop keep their
+// old objects across the loop-head havoc.
+func (g *Gen) loopMods(li *loopInfo) (comps map[string]bool, dirty map[string]bool, all bool, locals map[*ssa.Alloc]bool) {
 	comps = map[string]bool{}
+	dirty = map[string]bool{}
 	locals = map[*ssa.Alloc]bool{}
+	mapComps := func(t types.Type) (string, string) {
+		mt := t.Underlying().(*types.Map)
+		ks, vs := g.m.sortOf(mt.Key()), g.m.sortOf(mt.Elem())
+		if ks == "Str" {
+			ks = "Int"
+		}
+		return g.m.compMap(ks, vs)
+	}
+	var freshVal func(v ssa.Value) bool
+	freshVal = func(v ssa.Value) bool {
+		switch x := v.(type) {
+		case *ssa.Alloc:
+			return li.blocks[x.Block()]
+		case *ssa.MakeSlice:
+			return li.blocks[x.Block()]
+		case *ssa.MakeMap:
+			return li.blocks[x.Block()]
+		case *ssa.IndexAddr:
+			return freshVal(x.X)
+		case *ssa.FieldAddr:
+			return freshVal(x.X)
+		case *ssa.Slice:
+			return freshVal(x.X)
+		}
+		return false
+	}
+	mark := func(tmp map[string]bool, fresh bool) {
+		for c := range tmp {
+			comps[c] = true
+			if !fresh {
+				dirty[c] = true
+			}
+		}
+	}
 	for b := range li.blocks {
 		for _, in := range b.Instrs {
 			switch x := in.(type) {
 			case *ssa.Store:
-				g.addrComps(x.Addr, comps, locals)
+				tmp := map[string]bool{}
+				g.addrComps(x.Addr, tmp, locals)
+				mark(tmp, freshVal(x.Addr))
 			case *ssa.MapUpdate:
-				mt := x.Map.Type().Underlying().(*types.Map)
-				ks, vs := g.m.sortOf(mt.Key()), g.m.sortOf(mt.Elem())
-				if ks == "Str" {
-					ks = "Int"
-				}
-				d, v := g.m.compMap(ks, vs)
-				comps[d], comps[v] = true, true
+				d, v := mapComps(x.Map.Type())
+				mark(map[string]bool{d: true, v: true}, freshVal(x.Map))
 			case *ssa.Alloc:
 				if x.Heap || isArrayAlloc(x) {
 					comps["alloc"] = true
-					g.allocComps(x, comps)
+					tmp := map[string]bool{}
+					g.allocComps(x, tmp)
+					mark(tmp, true)
 				} else {
 					locals[x] = true
 				}
 			case *ssa.MakeSlice:
 				comps["alloc"] = true
 				comps[g.m.compSliceHeap(g.m.sortOf(x.Type().Underlying().(*types.Slice).Elem()))] = true
+			case *ssa.Convert:
+				if _, ok := x.Type().Underlying().(*types.Slice); ok {
+					comps["alloc"] = true
+					comps[g.m.compSliceHeap("Int")] = true
+				}
+			case *ssa.Range, *ssa.Next:
+				g.m.comps["It"] = "(Array Int Int)"
+				comps["alloc"] = true
+				mark(map[string]bool{"It": true}, false)
 			case *ssa.MakeMap, *ssa.MakeClosure, *ssa.MakeInterface, *ssa.MakeChan:
 				comps["alloc"] = true
 				if mm, ok := x.(*ssa.MakeMap); ok {
-					mt := mm.Type().Underlying().(*types.Map)
-					ks, vs := g.m.sortOf(mt.Key()), g.m.sortOf(mt.Elem())
-					if ks == "Str" {
-						ks = "Int"
-					}
-					d, v := g.m.compMap(ks, vs)
+					d, v := mapComps(mm.Type())
 					comps[d], comps[v] = true, true
 				}
 			case ssa.CallInstruction:
@@ -541,31 +584,28 @@ func (g *Gen) loopMods(li *loopInfo) (comps map[string]bool, all bool, locals ma
 					case "append", "copy":
 						comps["alloc"] = true
 						if sl, ok := cc.Args[0].Type().Underlying().(*types.Slice); ok {
-							comps[g.m.compSliceHeap(g.m.sortOf(sl.Elem()))] = true
+							mark(map[string]bool{g.m.compSliceHeap(g.m.sortOf(sl.Elem())): true}, b.Name() == "copy" && freshVal(cc.Args[0]))
 						}
 					case "delete":
-						mt := cc.Args[0].Type().Underlying().(*types.Map)
-						ks, vs := g.m.sortOf(mt.Key()), g.m.sortOf(mt.Elem())
-						if ks == "Str" {
-							ks = "Int"
-						}
-						d, v := g.m.compMap(ks, vs)
-						comps[d], comps[v] = true, true
+						d, v := mapComps(cc.Args[0].Type())
+						mark(map[string]bool{d: true, v: true}, false)
 					}
 					continue
 				}
 				ct := g.calleeContract(cc)
 				if ct == nil || (!ct.ModSet) || ct.ModAll {
-					if ct != nil && ct.Inline {
-						all = true
-					}
 					all = true
 					continue
 				}
+				if !ct.Pure {
+					comps["alloc"] = true
+				}
 				for _, mcomp := range ct.Modifies {
+					tmp := map[string]bool{}
 					for _, c := range g.expandMod(mcomp) {
-						comps[c] = true
+						tmp[c] = true
 					}
+					mark(tmp, strings.HasPrefix(mcomp, "new "))
 				}
 			}
 		}
